@@ -70,13 +70,13 @@ func cmdRepCases(args []string) error {
 		for i, op := range c.Ops {
 			switch op {
 			case "read":
-				payload[i] = fmt.Sprintf("r%d;", i)
+				payload[i] = fmt.Sprintf("r%d%%;", i)
 			case "readword":
-				payload[i] = fmt.Sprintf("w%d", i)
+				payload[i] = fmt.Sprintf("w%d%%d", i)
 			case "readline":
-				payload[i] = fmt.Sprintf("l%d", i)
+				payload[i] = fmt.Sprintf("l%d%%s", i)
 			case "printf", "write", "errprintf", "errwrite":
-				payload[i] = fmt.Sprintf("[%s%d]", op, i)
+				payload[i] = fmt.Sprintf("[%s%d 50%%]", op, i)
 			}
 		}
 		// build the input stream: reads consume in order; a *0 op must come when the input is exhausted, so the
